@@ -413,7 +413,7 @@ class Tiny:
                 while self.truth(self.ev(st.test)):
                     n += 1
                     if n > 64:
-                        raise AnalysisError("tiny: loop does not terminate within 64 iterations on a small cell")
+                        raise TinyRaise("<loop does not terminate on this cell>")
                     r = self._run(st.body, stop)
                     if r[0] == "break":
                         break
